@@ -1661,8 +1661,9 @@ def translate_frame(src):
         out = ("/-- the part of `Frame::from_usart_frame` after the COBS decoding could not be translated on this run (%s): this is the hand-written model's -/\n"
                "def fromUsartBody %s :=\n  fromUsartModelBody fr\n" % (str(ex).replace("-/", ""), sig))
     ctext, cmissing = translate_can(src)
-    missing = missing + cmissing
-    out = out + "\n" + ctext
+    etext, emissing = translate_can_enc(src)
+    missing = missing + cmissing + emissing
+    out = out + "\n" + ctext + "\n" + etext
     text = ("import RossModel.Spec.SrcPrims\n"
             "/-! GENERATED by bin/extract (bin/rust2lean.py) from src/frame.rs of the repository under verification — do not edit.\n"
             "Every run of a check regenerates this file from /repo's working tree before building the theorems. -/\n"
@@ -1761,6 +1762,114 @@ def translate_can(src):
     except (Untranslatable, KeyError, TypeError, IndexError) as ex:
         return ("/-- `Frame::from_bxcan_frame` could not be translated on this run (%s): this is the hand-written model's definition -/\ndef fromCan %s :=\n  Ross.fromCan c\n" % (str(ex).replace("-/", ""), sig)), ["from_bxcan_frame"]
 
+
+
+# ---------------------------------------------------------------- frame encoder (src/frame.rs): to_bxcan_frame
+
+class CanEncTranslator(FrameTranslator):
+    """translates `Frame::to_bxcan_frame` (`self` is `f : Frame`): the identifier is accumulated with `id |= …` (each a rebinding),
+    a flag cast `as u32` is `bit`, `<<` on `u32` drops the bits shifted out, the two arms of `match self.frame_id` select by the kind
+    of the frame id; the final `BxFrame::new_data(ExtendedId::new(id).unwrap(), Data::new(&self.data[0..n]).unwrap())` is the primitive
+    `Prim.canFrame`, which panics when the identifier has more than 29 bits, the slice is out of range or longer than 8 bytes."""
+
+    SELF = {"not_error_flag": ("f.notError", "bool"), "start_frame_flag": ("f.start", "bool"), "multi_frame_flag": ("f.multi", "bool"),
+            "device_address": ("f.addr.toNat", "u16"), "data_len": ("f.dataLen", "u8")}
+
+    def num(self, e, env, k):
+        if e[0] == "path" and len(e[1]) == 2 and e[1][0] == "self" and e[1][1] in self.SELF:
+            return k(*self.SELF[e[1][1]])
+        if e[0] == "as" and e[1] in ("u32", "u8", "u16"):
+            def k1(a, ta):
+                if ta == "bool":
+                    return k("bit %s" % a, e[1])
+                return FrameTranslator.num(self, ("as", e[1], ("path", ["__v"])), {"__v": (a, ta)}, k)
+            return self.num(e[2], env, k1)
+        if e[0] == "call" and e[1] == ("path", ["__sel"]) and len(e[2]) == 2:
+            def k1(a, ta):
+                def k2(b, tb):
+                    if ta != tb:
+                        raise Untranslatable("arms of different types")
+                    return k("(if f.idLast then %s else %s)" % (a, b), ta)
+                return self.num(e[2][1], env, k2)
+            return self.num(e[2][0], env, k1)
+        if e[0] == "bit" and e[1] == "<<":
+            def k1(a, ta):
+                def k2(b, tb):
+                    if tb != "int" or ta not in ("u32", "u16", "u8"):
+                        raise Untranslatable("shift")
+                    return k("((%s <<< %s) %% %d)" % (a, b, {"u32": 2 ** 32, "u16": 65536, "u8": 256}[ta]), ta)
+                return self.num(e[3], env, k2)
+            return self.num(e[2], env, k1)
+        return super().num(e, env, k)
+
+    def stmts(self, ss, env, ind):
+        if not ss:
+            raise Untranslatable("fell off the end")
+        s, rest = ss[0], ss[1:]
+        if s[0] == "letmut" and s[2][0] == "num":
+            env2 = dict(env)
+            env2[s[1]] = (s[1], "u32")
+            return "%slet %s := %d\n%s" % (ind, s[1], s[2][1], self.stmts(rest, env2, ind))
+        if s[0] == "orassign" and s[1][0] == "path" and len(s[1][1]) == 1 and env.get(s[1][1][0], (None, None))[1] == "u32":
+            v = s[1][1][0]
+
+            def k(t, ty):
+                if ty not in ("u32", "int"):
+                    raise Untranslatable("|= of " + ty)
+                return "%slet %s := (%s ||| %s)\n%s" % (ind, v, v, t, self.stmts(rest, env, ind))
+            return ind + self.num(s[2], env, k).lstrip()
+        if s[0] in ("tail", "return") and not rest and s[1][0] == "call" and s[1][1] == ("path", ["__can"]) and len(s[1][2]) == 1:
+            return ind + self.num(s[1][2][0], env, lambda t, ty: "%sPrim.canFrame %s f" % (ind, t) if ty == "u32" else (_ for _ in ()).throw(Untranslatable("identifier type"))).lstrip()
+        raise Untranslatable("statement " + s[0])
+
+
+class BitParser2(BitParser):
+    def stmt(self):
+        save = self.i
+        if self.peek() not in ("if", "let", "return", "for", "match", "loop", "break"):
+            try:
+                e = self.expr()
+                if self.peek() == "|" and self.peek(1) == "=":
+                    self.eat(); self.eat()
+                    rhs = self.expr()
+                    self.eat(";")
+                    return ("orassign", e, rhs)
+            except Untranslatable:
+                pass
+            self.i = save
+        return super().stmt()
+
+    def bitor(self, nostruct):
+        a = self.bitand(nostruct)
+        while self.peek() == "|" and self.peek(1) != "=":
+            self.eat()
+            a = ("bit", "|", a, self.bitand(nostruct))
+        return a
+
+
+def translate_can_enc(src):
+    sig = "(f : Frame) : Res FErr CanFrame"
+    try:
+        m = re.search(r"pub fn to_bxcan_frame\s*\(\s*&self\s*\)\s*->\s*BxFrame\s*\{", src)
+        if not m:
+            raise Untranslatable("signature")
+        i, depth = m.end() - 1, 0
+        for j in range(i, len(src)):
+            depth += src[j] == "{"
+            depth -= src[j] == "}"
+            if depth == 0:
+                break
+        body = re.sub(r"//[^\n]*", "", src[i:j + 1])
+        body = re.sub(r"match\s+self\.frame_id\s*\{\s*FrameId::LastFrameId\((\w+)\)\s*=>\s*(\w+)\s*\|=\s*([^,{}]+?),\s*FrameId::CurrentFrameId\(\1\)\s*=>\s*\2\s*\|=\s*([^,{}]+?),?\s*\}",
+                      lambda mm: "%s |= __sel(%s, %s);" % (mm.group(2), mm.group(3).replace(mm.group(1), "__fid"), mm.group(4).replace(mm.group(1), "__fid")), body)
+        body, n = re.subn(r"BxFrame::new_data\(\s*ExtendedId::new\((\w+)\)\.unwrap\(\),\s*Data::new\(&self\.data\[0\.\.self\.data_len as usize\]\)\.unwrap\(\),?\s*\)", r"__can(\1)", body)
+        if n != 1:
+            raise Untranslatable("construction of the bxcan frame")
+        text = CanEncTranslator().stmts(BitParser2(tokenize2(body)).block(), {"__fid": ("f.fid", "u16")}, "  ")
+        text = "\n".join(l if l.startswith(" ") else "  " + l for l in text.split("\n"))
+        return ("/-- translated from `Frame::to_bxcan_frame` in src/frame.rs -/\ndef toCan %s :=\n%s\n" % (sig, text)), []
+    except (Untranslatable, KeyError, TypeError, IndexError) as ex:
+        return ("/-- `Frame::to_bxcan_frame` could not be translated on this run (%s): this is the hand-written model's definition -/\ndef toCan %s :=\n  Ross.toCan f\n" % (str(ex).replace("-/", ""), sig)), ["to_bxcan_frame"]
 
 
 if __name__ == "__main__":
